@@ -34,7 +34,7 @@ func seedPayloads() []*V {
 	add := func(v *V) { out = append(out, v) }
 	// struct fields of every leaf kind under every default
 	for _, t := range []*string{sec, sens, pub, nil, sp("sensitive,hmac-sha256"), sp("secret,encrypt")} {
-		add(ptr(st(fld("F1", t, str(1)), fld("F2", t, &V{K: "bytes", C: 2}), fld("F3", t, &V{K: "strs", Cs: []int{3, 4}}), fld("F4", t, &V{K: "bytess", Cs: []int{5}}),
+		add(ptr(st(fld("F1", t, str(1)), fld("F2", t, &V{K: "bytes", C: 2}), fld("F3", t, &V{K: "strs", Cs: []int{3, 4, 9, 10}}), fld("F4", t, &V{K: "bytess", Cs: []int{5, 11, 12}}),
 			fld("F5", t, &V{K: "wstr", C: 6}), fld("F6", t, ptr(&V{K: "wbytes", C: 7})), fld("F7", t, ptr(str(8))), fld("F8", t, &V{K: "nilbytes"}),
 			fld("F9", t, &V{K: "int", I: 42}), fld("F10", t, &V{K: "time", I: 12345}), fld("F11", t, &V{K: "bool", I: 1}))))
 	}
